@@ -10,7 +10,7 @@ import (
 )
 
 func init() {
-	register(&Rule{ID: "SAT-overflow", Props: []string{"C02", "C09", "C08"}, Min: 10,
+	register(&Rule{ID: "SAT-overflow", Props: []string{"C02", "C09", "C08", "C05", "C12", "C15", "C16"}, Min: 10,
 		Doc: "G: Value.number() classifies a script number and returns its integer part saturated to the int64 range (Infinity, 1e300 -> MaxInt64), and toIntegerFloat returns a float64 that may be infinite. Census of their uses in the built-ins: (a) integer addition, subtraction or multiplication on such a saturated value wraps around unless the value was bounded from that side first (a dominating ordered comparison of that value whose surviving branch limits it); (b) a conversion of a toIntegerFloat result to an integer type is undefined for infinities and out-of-range values unless a dominating two-sided range test excludes them. A wrapped sum passes the clamp that follows it and becomes a negative slice bound: an index-out-of-range panic that escapes Run (`\"abc\".substr(1, Infinity)`)",
 		Run: ruleSatOverflow})
 }
@@ -172,6 +172,25 @@ func ruleSatOverflow(c *Ctx, r *R) {
 						op = token.GEQ
 					case token.GEQ:
 						op = token.LEQ
+					}
+				}
+				// |v| compared with something: the side on which |v| is smaller bounds v from both sides
+				if ac, ok := x.(*ssa.Call); ok && !saturated(y, 0) {
+					if cal := ac.Call.StaticCallee(); cal != nil && cal.Pkg != nil && cal.Pkg.Pkg.Path() == "math" && cal.Name() == "Abs" && sameSSA(stripConv(ac.Call.Args[0]), v, 0) {
+						absSide := -1
+						switch op {
+						case token.LSS, token.LEQ:
+							absSide = 0
+						case token.GTR, token.GEQ:
+							absSide = 1
+						}
+						if absSide >= 0 {
+							s, other := b.Succs[absSide], b.Succs[1-absSide]
+							if (len(s.Preds) == 1 && s.Dominates(use.Block())) || (b.Dominates(use.Block()) && !reaches(other, use.Block(), map[*ssa.BasicBlock]bool{b: true})) {
+								return true
+							}
+						}
+						continue
 					}
 				}
 				if !sameSSA(x, v, 0) || saturated(y, 0) {
